@@ -461,11 +461,12 @@ func (s *sim) runConsensusPhase(honest []*node, att core.Duty, crashBudget int, 
 	}
 
 	// wait until every node that keeps running has decided, or give up
-	limit := 9 * time.Second
+	limit := 9 * time.Second * waitScale
 	if stale {
-		limit = 7 * time.Second
+		limit = 7 * time.Second * waitScale
 	}
 	deadline := time.Now().Add(limit)
+	var othersAt time.Time
 	for time.Now().Before(deadline) {
 		time.Sleep(25 * time.Millisecond)
 		s.evMu.Lock()
@@ -474,17 +475,29 @@ func (s *sim) runConsensusPhase(honest []*node, att core.Duty, crashBudget int, 
 			got[e.node] = true
 		}
 		s.evMu.Unlock()
-		all := true
-		for _, nd := range honest {
+		all, others := true, true
+		for i, nd := range honest {
 			if !nd.crashed && !got[nd.idx] {
 				all = false
+				if i != 0 {
+					others = false
+				}
 			}
 		}
 		if all {
 			break
 		}
+		// stale-PREPARE schedule: node x (honest[0]) is cut off from the others' COMMITs and normally never
+		// decides; once the others have, give it one more second and stop waiting
+		if stale && others {
+			if othersAt.IsZero() {
+				othersAt = time.Now()
+			} else if time.Since(othersAt) > time.Second*waitScale {
+				break
+			}
+		}
 	}
-	time.Sleep(50 * time.Millisecond)
+	time.Sleep(50 * time.Millisecond * waitScale)
 	s.net.mu.Lock()
 	s.net.closed = true
 	s.res.Stats["cons_msgs_sent"] = s.net.sent
@@ -498,7 +511,7 @@ func (s *sim) runConsensusPhase(honest []*node, att core.Duty, crashBudget int, 
 	go func() { s.wg.Wait(); close(done) }()
 	select {
 	case <-done:
-	case <-time.After(5 * time.Second):
+	case <-time.After(5 * time.Second * waitScale):
 		s.logf("consensus: goroutines still running after the phase")
 	}
 
@@ -548,11 +561,11 @@ func (s *sim) runConsensusPhase(honest []*node, att core.Duty, crashBudget int, 
 			if !nd.decided[att] {
 				continue
 			}
-			ctx, cancel := context.WithTimeout(s.ctx, 2*time.Second)
+			ctx, cancel := context.WithTimeout(s.ctx, 2*time.Second*waitScale)
 			resp, err := nd.vapi.AttestationData(ctx, &eth2api.AttestationDataOpts{Slot: eth2p0.Slot(att.Slot), CommitteeIndex: eth2p0.CommitteeIndex(v.valIdx)})
 			cancel()
-			if err != nil {
-				s.hit("dutydb-no-answer", "node %d: DutyDB has no answer for %v validator %d after its consensus decided: %v", nd.idx, att, v.valIdx, err)
+			if err != nil { // no answer in time: nothing observed (only two DIFFERENT answers are a finding)
+				s.stat("dutydb_no_answer")
 				continue
 			}
 			root, err := resp.Data.HashTreeRoot()
